@@ -37,6 +37,16 @@ var AllScenarios = func() []Scenario {
 			}
 		}
 	}
+	// leader modes added later are appended so that the indices of the earlier scenarios (replay artefacts) stay valid
+	for _, bump := range []bool{false, true} {
+		for l := 7; l <= 8; l++ {
+			for e := 0; e <= 2; e++ {
+				for _, x := range pqs {
+					out = append(out, Scenario{Bump: bump, E: e, P: x.p, Q1: x.q1, Q2: x.q2, V: 0, L: l})
+				}
+			}
+		}
+	}
 	return out
 }()
 
@@ -123,7 +133,7 @@ func OpsFor(in Info, reduced bool) []int {
 			if s.V != 0 || s.E == 1 {
 				continue
 			}
-			if EquivocationProfile && s.L != 0 && s.L != 4 {
+			if EquivocationProfile && s.L != 0 && s.L != 4 && s.L != 7 {
 				continue // C14 only needs the equivocating leader (it produces real double-sign evidence)
 			}
 			pq := [3]int{s.P, s.Q1, s.Q2}
@@ -146,6 +156,9 @@ func OpsFor(in Info, reduced bool) []int {
 			continue
 		}
 		if s.L >= 1 && s.L <= 2 && s.L-1 >= in.NCerts {
+			continue
+		}
+		if s.L == 8 && in.NCerts == 0 {
 			continue
 		}
 		if s.L >= 5 && (s.L-5 >= in.NCerts || reduced) {
